@@ -19,11 +19,11 @@ import (
 // C03: committed registry must be contained in the log of every new leader;
 // restart must not panic (Sim.restart); bounded progress (Sim.settle).
 type Monitor struct {
-	s       *Sim
-	leaders map[uint64]uint64
-	votes   map[[2]uint64]voteRec
-	ents    map[uint64]*entRec
-	chain   []uint64 // chain[i] = app hash chain after applying 1..i (registry view)
+	s            *Sim
+	leaders      map[uint64]uint64
+	votes        map[[2]uint64]voteRec
+	ents         map[uint64]*entRec
+	chain        []uint64 // chain[i] = app hash chain after applying 1..i (registry view)
 	maxCommitted uint64
 	maxTerm      uint64
 }
